@@ -177,8 +177,8 @@ async fn exec(w: Arc<World>, h: SyncHandle, q: Value, sub: Option<async_channel:
                         match rx.recv().await {
                             Ok(Some(Ok(en))) => items.push(w.proj_entry(&en)),
                             Ok(Some(Err(e))) => {
-                                let s = format!("{e:?} {e}");
-                                err = Some(if s.contains("replica not open") { "NotOpen" } else { "Other" });
+                                let _ = e;
+                                err = Some("err");
                             }
                             Ok(None) | Err(_) => break,
                         }
